@@ -129,13 +129,19 @@ def wsgiHeadersLower (env : Dict) : Dict := (wsgiHeaders env).foldl (fun h kv =>
 def wsgiContentType (env : Dict) : Option Str := dget env CT
 
 def chars (s : Str) : Hp.Str := s.map Char.ofNat
+/-- what `int(str)` strips from a Latin-1 `str`: CPython keeps code points < 127 as they are and turns the other
+    `str.isspace()` characters (NEL, NBSP) into spaces before the byte-level parser skips `\t\n\v\f\r` and space.  (So
+    `\x1c`-`\x1f`, which `str.strip()` removes, are NOT accepted: `int('\x1c5')` is a ValueError; measured on CPython 3.12.) -/
+def isWsInt (c : Char) : Bool := Hp.isWsB c || c.toNat == 133 || c.toNat == 160
+/-- `int(s)` for a Latin-1 `str` -/
+def pyIntStr (s : Hp.Str) : Option Int := Hp.pyIntW isWsInt s
 /-- `Request.content_length` (empty test first, then `int(str)`) -/
 def wsgiContentLength (env : Dict) : Hp.CLRes :=
   match dget env CL with
   | none => .absent
   | some value =>
     if value = [] then .absent else
-    match Hp.pyInt (chars value) with
+    match pyIntStr (chars value) with
     | none => .bad
     | some n => if n < 0 then .bad else .ok n
 
@@ -202,6 +208,22 @@ def nameOK (n : Str) : Bool := n.all fun c => decide (c < 128) && decide (c ≠ 
 def singletonsOnce (hs : List (Str × Str)) : Bool :=
   SINGLETONS.all fun s => decide ((hs.filter fun h => pyLower h.1 = s).length ≤ 1)
 def wfReq (r : HReq) : Bool := (r.headers.all fun h => nameOK h.1) && singletonsOnce r.headers
+
+/-- the code points `int(str)` skips but `int(bytes)` does not: NEL, NBSP -/
+def exoticWs (c : Nat) : Bool := c == 133 || c == 160
+/-- no Content-Length field line contains such a code point (a server rejects a non-numeric Content-Length itself) -/
+def clValueOK (r : HReq) : Bool :=
+  r.headers.all fun h => !(pyLower h.1 == clLow) || h.2.all fun c => !exoticWs c
+
+/-- a request with the given field lines (everything else fixed) -/
+def mkReq (hs : List (String × String)) : HReq :=
+  { method := GET, rootPath := [], pathInfo := lit "/", query := [], serverName := lit "localhost", serverPort := lit "80",
+    scheme := lit "http", client := none, fileWrapper := false, headers := hs.map fun h => (lit h.1, lit h.2) }
+
+/-- a non-trivial request inside the domain: mixed case, a repeated non-singleton, an empty value, Content-Type and Content-Length -/
+def sampleReq : HReq :=
+  mkReq [("Accept", "text/html"), ("X-Custom", "a"), ("content-TYPE", "application/json"), ("x-custom", ""),
+         ("ACCEPT", "*/*"), ("Content-Length", "12"), ("Host", "example.com")]
 
 /-- the canonical header mapping both stores are compared with: lower-cased name ↦ comma-joined values,
     in order of first occurrence -/
